@@ -2,6 +2,7 @@ package chk
 
 import (
 	"fmt"
+	"go/token"
 	"sort"
 	"strings"
 
@@ -200,6 +201,50 @@ func ruleEffectGlobal(p *Prog, r *Report) {
 		r.Bad(rule, p.Name(w.Fn), w.What+" to package state", p.Pos(w.Instr.Pos()),
 			"a function reachable from the non-setter API "+p.Name(root)+" writes package-level state: "+a.describe(hit)+" — concurrent calls race and results depend on history",
 			a.pathTo(prev, root, w.Fn))
+	}
+	// stores through a pointer that was loaded from a package variable: whatever the variable points to (a user's value
+	// included) is shared by every caller, so the points-to exclusion of external objects does not apply to them
+	for f := range reachAll {
+		if isPkgInit(f) {
+			continue
+		}
+		for _, b := range f.Blocks {
+			for _, in := range b.Instrs {
+				st, ok := in.(*ssa.Store)
+				if !ok {
+					continue
+				}
+				addr := st.Addr
+				depth := 0
+				for {
+					if fa, ok := addr.(*ssa.FieldAddr); ok {
+						addr = fa.X
+						depth++
+						continue
+					}
+					if ia, ok := addr.(*ssa.IndexAddr); ok {
+						addr = ia.X
+						depth++
+						continue
+					}
+					break
+				}
+				ld, ok := addr.(*ssa.UnOp)
+				if !ok || ld.Op != token.MUL || depth == 0 {
+					continue
+				}
+				g, ok := ld.X.(*ssa.Global)
+				if !ok || !p.moduleGlobal(g) {
+					continue
+				}
+				bad++
+				root := rootOf[f]
+				_, prev := a.reachFuncs(root)
+				r.Bad(rule, p.Name(f), "store through the pointer in "+g.Name(), p.Pos(st.Pos()),
+					"a function reachable from the non-setter API "+p.Name(root)+" writes the value that the package variable "+g.Name()+" points to: every concurrent caller shares it",
+					a.pathTo(prev, root, f))
+			}
+		}
 	}
 	if bad == 0 {
 		r.OK(rule, "non-setter API", "no write to package state", "", fmt.Sprintf("%d roots, %d reachable functions, %d write instructions, none can target a package variable or memory reachable from one (%d objects)", len(roots), len(reachAll), nw, len(greach)))
